@@ -318,6 +318,11 @@ pub fn c01_families(tier: &str) -> Vec<SeqSpec> {
     let mut abl = a1();
     abl.extend(reopen_ops(3));
     v.push(spec("F-bloom-reopen", &["T300b2", "T300b30", "T300"], k3g(), abl, if t { 5 } else { 3 }, READS).flush());
+    // the filter policy itself changed across a reopen (Bloom <-> a policy of another name): the
+    // filter blocks of older tables do not belong to the configured policy and must be ignored
+    let mut apol = a1();
+    apol.extend(reopen_ops(3));
+    v.push(spec("F-policy-reopen", &["T300", "T300p", "T300b30"], k3g(), apol, if t { 5 } else { 3 }, READS).flush());
     // keys longer than a block (4500 bytes), one a prefix of the other
     v.push(
         spec(
@@ -399,6 +404,8 @@ pub fn c01_families(tier: &str) -> Vec<SeqSpec> {
         Op::Batch(vec![(0, true), (0, true)]),
         Op::Batch(vec![(0, true), (1, true), (0, false)]),
         Op::Batch(vec![(1, false), (0, true), (1, true)]),
+        // an empty batch: a 9-byte WAL record, no sequence number consumed
+        Op::Batch(vec![]),
         Op::Put(0, 0),
         Op::Del(1),
         Op::Compact(None, None),
